@@ -12,7 +12,7 @@ The aliasing half of the statement has no counterpart over immutable values: it 
 
 Several per-point theorems are short because model and documented function nearly coincide (where, shift); the
 substance is in `grouped_nodes_are_per_group`, the history statements of the stateful nodes, the map theorems of
-default/delete and the flatten naming theorem. Not proved (kept as `…_stmt`): eval, flatten on a stream, groupBy's sort.
+default/delete and the flatten naming theorem. Not proved (kept as `…_stmt`): eval.
 -/
 import Kap.Proofs.C10Main
 namespace Kap.Props.C10
@@ -66,6 +66,15 @@ theorem equivB_is_map_equality (a b : Point) :
 /-- delete: listed fields/tags are gone, everything else is untouched, deleted tags leave the dimensions. -/
 theorem delete_spec (df dt : List String) (p : Point) : (deletePoint df dt p).equivB (specDelete df dt p) = true :=
   Main.delete_spec df dt p
+
+/-- groupBy (stream): the new dimensions are the sorted listed tags — or all tags of the point under `*` — minus the
+excluded ones (the code sorts first and filters then; the documented function filters first), byMeasurement is sticky. -/
+theorem groupBy_spec (c : GroupByCfg) (p : Point) : groupByPoint c p = specGroupBy c p :=
+  Main.groupBy_spec c p
+
+/-- … and they are sorted, whatever order they were listed in. -/
+theorem groupBy_dims_sorted (c : GroupByCfg) (tags : Tags) : (gbTagNames c tags).Pairwise (· ≤ ·) :=
+  gbTagNames_sorted c tags
 
 /-- shift moves the time and nothing else. -/
 theorem shift_spec (d : Int) (p : Point) : shiftPoint d p = specShift d p := rfl
@@ -140,6 +149,23 @@ nothing — and leaves nothing behind (the code as repaired by add6dbc). -/
 theorem flatten_bucket_fields (c : FlattenCfg) (bucket : List BPoint) : flattenFields c bucket = specFlatFields c bucket :=
   flattenFields_eq c bucket
 
+/-- **flatten on a stream** whose (rounded) times do not decrease within a group: the buffer the code keeps per group is
+the open bucket of the group's history (consecutive points with the rounded time of the last one); a point whose rounded
+time differs closes it, and the closed bucket becomes ONE point — name, group tags and dimensions of the group, time of
+the bucket, the documented fields — unless it has no field at all. Nothing else is emitted; the last bucket stays open. -/
+theorem flatten_stream_spec (c : FlattenCfg) (ps : List Point) (hord : groupTimesOrdered c.tol ps = true) :
+    flattenStream c ps = specFlatten c ps :=
+  flattenStream_eq c ps hord
+
+example :
+    let c : FlattenCfg := { on := ["p"], delim := ".", tol := 0, drop := false }
+    let ps : List Point := [{ name := "m", tags := [("p", "80")], fields := [("v", .int 1)], time := 0 },
+                            { name := "m", tags := [("p", "443")], fields := [("v", .int 2)], time := 0 },
+                            { name := "m", tags := [("p", "80")], fields := [("v", .int 3)], time := 1 }]
+    groupTimesOrdered c.tol ps = true ∧
+      (specFlatten c ps).map (·.fields) = [[("80.v", .int 1), ("443.v", .int 2)]] := by
+  decide
+
 /-- Counterexample (the defect repaired by add6dbc): in snapshot ef0888e a point that has the first `on` tag but not the
 second leaves its tag value in the shared prefix buffer; the next point's field comes out as `ab.80.v` instead of
 `b.80.v` (replayed on the real code by corpus/C10/flatten-missing-later-tag.ops). -/
@@ -198,18 +224,5 @@ theorem eval_shadowed_result_is_lost :
       (specEvalFT c fields []).map (fun r => aget r.1 "v") = some (some (.int 2)) :=
   ⟨{ exprs := [.bin .add (.ref "v") (.lit (.int 1)), .bin .mul (.ref "v") (.lit (.int 2))], as := ["v", "y"], keep := true },
    [("v", .int 1)], by decide⟩
-
-/-! ### statements kept visible but not proved -/
-
-/-- flatten on a stream whose (rounded) times do not decrease within a group: a point whose rounded time differs from the
-open bucket of its group closes that bucket. Not proved (the closed form of `FlatSt` over the group history is missing);
-checked on every run on the implementation's output (clause `flatten-spec`). -/
-def flatten_stream_stmt : Prop :=
-  ∀ (c : FlattenCfg) (ps : List Point), groupTimesOrdered c.tol ps = true →
-    listEquivB Point.equivB (flattenStream c ps) (specFlatten c ps) = true
-
-/-- groupBy: the dimensions are the sorted non-excluded tags (sort∘filter = filter∘sort is not proved). -/
-def groupBy_dims_stmt : Prop :=
-  ∀ (c : GroupByCfg) (tags : Tags), gbTagNames c tags = specGroupByDims c tags
 
 end Kap.Props.C10
